@@ -220,6 +220,10 @@ def apply_contract(ex, key, self_obj, args, kw, line):
     old_self = snapshot(self_obj) if self_obj is not None else None
     env = contract_env(ex, c, bound, self_obj, old_self)
     name = key.split("::")[1]
+    # lemma instances (or assertions to be proved) the CALLER's contract supplies just before this
+    # call, written over the callee's parameter names
+    for text in ex.contract.get("call_hints", {}).get(name.split(".")[-1], []):
+        assume_hint(ex, text, env, line, f"call:{name.split('.')[-1]}")
     for i, r in enumerate(c.get("requires", [])):
         g = ex.to_bool(eval_spec_expr(ex, r, env))
         ex.oblige("pre", f"{name}:requires[{i}]", g, line, note=r)
